@@ -56,6 +56,17 @@ def run_config(item):
             h = 'md5' + hashlib.md5(b'pwu').hexdigest()
             for b in w.backends.values():
                 b.auth_rows = [('u', h)]
+        other_pools = {}
+        if c['creds'] == 'authquery_incomplete':
+            pool.update({'auth_query_user': 'aq', 'auth_query_password': 'aqpw'})
+        if c['creds'] == 'none_other_pool_authquery':
+            anyb = sorted(w.backends.values(), key=lambda x: x.name)[0]
+            other_pools['dbq'] = {'pool_mode': 'transaction', 'default_role': 'any', 'users': {'0': {'username': 'uq', 'pool_size': 1}},
+                                  'shards': {'0': {'database': 'db', 'servers': [['127.0.0.1', anyb.port, 'primary']]}},
+                                  'auth_query': "SELECT usename, passwd FROM pg_shadow WHERE usename='$1'",
+                                  'auth_query_user': 'aq', 'auth_query_password': 'aqpw'}
+            for b in w.backends.values():
+                b.auth_rows = [('uq', 'md5' + hashlib.md5(b'pwuq').hexdigest())]
         if c['regex'] == 'valid':
             pool['shard_id_regex'] = r'/\* shard_id: (\d+) \*/'
             pool['query_parser_enabled'] = True
@@ -69,7 +80,7 @@ def run_config(item):
                 pool['query_parser_enabled'] = False
                 pool.pop('shard_id_regex', None) if c['regex'] == 'none' else None
         w.port = W.free_port()
-        text = render_config(default_general(w.port), {'db': pool})
+        text = render_config(default_general(w.port), dict({'db': pool}, **other_pools))
         try:
             w.start(text=text, port=w.port)
             rec['accepted'] = True
